@@ -143,6 +143,7 @@ class Parser:
         self.i = 0
         self.assigned = set()  # register tokens that are assigned somewhere
         self.features = set()
+        self.pred_writes = []  # explicit predicate numbers (or -1) in order of first assignment
 
     def pk(self, o=0):
         return self.t[min(self.i + o, len(self.t) - 1)]
@@ -153,6 +154,13 @@ class Parser:
             raise CSyntaxError(f"expected {v!r} got {tk[1]!r} (tok {self.i})")
         self.i += 1
         return tk
+
+    def note_pred_write(self, lhs):
+        info = lhs[2]
+        if info.get("cls") == "P":
+            num = info.get("explicit_num", -1)
+            if num not in self.pred_writes:
+                self.pred_writes.append(num if 0 <= num <= 3 else -1)
 
     # types --------------------------------------------------------------
     def at_type(self, o=0):
@@ -319,6 +327,7 @@ class Parser:
             rhs = self.assign()
             if lhs[0] == "reg":
                 self.assigned.add(lhs[1])
+                self.note_pred_write(lhs)
             return ("assign", op, lhs, rhs)
         return lhs
 
@@ -382,11 +391,13 @@ class Parser:
                 self.eat()
                 if e[0] == "reg":
                     self.assigned.add(e[1])
+                    self.note_pred_write(e)
                 e = ("postinc", e)
             elif v == "--":
                 self.eat()
                 if e[0] == "reg":
                     self.assigned.add(e[1])
+                    self.note_pred_write(e)
                 e = ("postdec", e)
             elif v in ("[", ".", "->"):
                 raise Unsupported("array/member access")
@@ -1091,3 +1102,29 @@ class CExec:
         self.merge_scope(c, scope, sc1, self.copy_scope(scope))
         self.merge_frame(c, fr, f1, dict(fr))
         return st2
+
+
+def attributes_of(text):
+    """Attribute set implied by a behaviour text alone (own parser; raises CSyntaxError/Unsupported outside it)."""
+    p = Parser(text)
+    p.program()
+    if p.pk()[0] != "eof":
+        raise CSyntaxError("trailing tokens")
+    A = "HEX_IL_INSN_ATTR_"
+    out = set()
+    if "if" in p.features:
+        out.add(A + "COND")
+    if "new" in p.features:
+        out.add(A + "NEW")
+    if "store" in p.features:
+        out.add(A + "MEM_WRITE")
+    if "load" in p.features:
+        out.add(A + "MEM_READ")
+    if "jump" in p.features:
+        out.add(A + "BRANCH")
+    if p.pred_writes:
+        out.add(A + "WPRED")
+        for n in p.pred_writes:
+            if n >= 0:
+                out.add(f"{A}WRITE_P{n}")
+    return out or {A + "NONE"}
